@@ -292,6 +292,8 @@ class ScratchDir:
         self.log = []                # ('read' | 'write' | 'probe', path, was written before in this computation?)
 
     def _path(self, p):
+        if isinstance(p, PathV):
+            p = str(p.p)
         if not isinstance(p, str):
             raise cx.Unsupported(f'file name is not a concrete string: {p!r}')
         return p
@@ -328,6 +330,7 @@ class ScratchDir:
     @staticmethod
     def join(it, f, args, kw, node):
         import posixpath
+        args = [str(a.p) if isinstance(a, PathV) else a for a in args]
         if not all(isinstance(a, str) for a in args):
             raise cx.Unsupported('os.path.join of a non-literal path component')
         return posixpath.join(*args)
@@ -336,6 +339,7 @@ class ScratchDir:
     def pure(it, f, args, kw, node):
         # os.path.splitext / basename / dirname / split: functions of the path text
         import posixpath
+        args = [str(a.p) if isinstance(a, PathV) else a for a in args]
         if not all(isinstance(a, str) for a in args) or kw:
             raise cx.Unsupported(f'{f.name} of a non-literal path')
         return getattr(posixpath, f.name.rsplit('.', 1)[1])(*args)
@@ -345,12 +349,67 @@ class ScratchDir:
         pl = ctx.opts.setdefault('prelude', {})
         pl.update({'os.path.isfile': self.probe, 'os.path.exists': self.probe, 'os.path.join': self.join})
         pl.update({f'os.path.{n}': self.pure for n in ('splitext', 'basename', 'dirname', 'split')})
+        pl.update({'pathlib.Path': PathV.make, 'pathlib.PurePath': PathV.make, 'pathv.method': PathV.method, 'os.fspath': lambda it, f, a, k, n: self._path(a[0])})
 
     def reads(self):
         return [e for e in self.log if e[0] == 'read']
 
     def writes(self):
         return [e for e in self.log if e[0] == 'write']
+
+
+class PathV(cx.Ext):
+    """pathlib.Path of concrete text: the pure (text-only) part of the pathlib interface, evaluated by pathlib.PurePosixPath itself"""
+    PURE = ('with_suffix', 'with_name', 'with_stem', 'joinpath', 'as_posix', '__str__', '__fspath__')
+    ATTRS = ('name', 'stem', 'suffix', 'parent', 'parts', 'suffixes')
+
+    def __init__(self, p):
+        self.p = p
+
+    @staticmethod
+    def lift(v):
+        import pathlib
+        return PathV(v) if isinstance(v, pathlib.PurePath) else v
+
+    @staticmethod
+    def make(it, f, args, kw, node):
+        import pathlib
+        args = [a.p if isinstance(a, PathV) else a for a in args]
+        if kw or not all(isinstance(a, (str, pathlib.PurePath)) for a in args):
+            raise cx.Unsupported('Path() of a non-literal path component')
+        return PathV(pathlib.PurePosixPath(*args))
+
+    @staticmethod
+    def method(it, f, args, kw, node):
+        self, name = f.bound
+        args = [a.p if isinstance(a, PathV) else a for a in args]
+        if kw or not all(isinstance(a, (str,)) or hasattr(a, 'parts') for a in args):
+            raise cx.Unsupported(f'Path.{name} with a non-literal argument')
+        return PathV.lift(getattr(self.p, name)(*args))
+
+    def cx_getattr(self, it, attr):
+        if attr in self.ATTRS:
+            return PathV.lift(getattr(self.p, attr))
+        if attr in self.PURE:
+            return cx.LibFn('pathv.method', bound=(self, attr))
+        return NotImplemented            # anything touching the file system (glob, unlink, exists, ...) is outside this model
+
+    def cx_str(self, it):
+        return str(self.p)
+
+    def cx_binop(self, it, op, other, reflected):
+        other = other.p if isinstance(other, PathV) else other
+        if op == 'Div' and (isinstance(other, str) or hasattr(other, 'parts')):
+            return PathV(other / self.p if reflected else self.p / other)
+        return NotImplemented
+
+    def cx_cmp(self, it, op, other, reflected):
+        if isinstance(other, PathV) and op in ('Eq', 'NotEq'):
+            return (self.p == other.p) == (op == 'Eq')
+        return NotImplemented
+
+    def __repr__(self):
+        return f'<Path {self.p}>'
 
 
 FS_TRUST = ('emg3d.io.save(p, **kw) / io.load(p) / os.path.isfile / exists / join / splitext / basename / dirname: a file holds what was saved under its name last, '
@@ -536,7 +595,10 @@ def task_solve_wrapper_files():
 SLOT_PAIRS = [(('efield', 'TxED-1', 'f-1', 'source'), ('efield', 'TxED-2', 'f-1', 'source')),        # two sources
               (('efield', 'TxED-1', 'f-1', 'source'), ('efield', 'TxED-1', 'f-2', 'source')),        # two frequencies
               (('efield', 'TxED-1', 'f-1', 'source'), ('bfield', 'TxED-1', 'f-1', 'sfield')),        # forward and back-propagation task of one slot
-              (('bfield', 'TxED-1', 'f-1', 'sfield'), ('gfield', 'TxED-1', 'f-1', 'sfield'))]        # back-propagation and J v task of one slot
+              (('bfield', 'TxED-1', 'f-1', 'sfield'), ('gfield', 'TxED-1', 'f-1', 'sfield')),        # back-propagation and J v task of one slot
+              # names chosen by the user (a Survey takes dictionaries of sources / frequencies with any keys): dots, differing only after the last dot
+              (('efield', 'TxED-1', 'f-0.5', 'source'), ('efield', 'TxED-1', 'f-0.25', 'source')),
+              (('efield', 'Tx-1.5km', 'f-1', 'source'), ('efield', 'Tx-1.25km', 'f-1', 'source'))]
 
 
 def task_file_hand_over():
